@@ -67,6 +67,9 @@ def reentrant(value):
     return value
 
 
+# set by a check: called while a module that a generated schema names as datatype is imported
+SCHEMA_HOOK = None
+
 # set by a check for the duration of one load: called from inside zcv.dt.reentrant, i.e. while
 # that load is suspended in a conversion (the hook records what it sees; it never raises)
 HOOK = None
